@@ -74,7 +74,7 @@ Qed.
 Definition xt_item (s : schema) (T : pset) (t : listT) (x : value) : list value :=
   let e := list_item_pe_or_zero s t x in
   if ps_has [e] T && ps_empty (ps_with_prefix e T)
-  then [remove_items s true (list_elem t) T x]
+  then [remove_items s true (list_elem t) (ps_with_prefix e T) x]
   else if negb (ps_empty (ps_with_prefix e T))
        then [remove_items s true (list_elem t) (ps_with_prefix e T) x]
        else [].
@@ -92,7 +92,7 @@ Qed.
 
 Definition xt_entry (s : schema) (T : pset) (t : mapT) (kv : string * value) : list (string * value) :=
   let k := fst kv in
-  if ps_has [PEField k] T then [(k, remove_items s true (field_type t k) T (snd kv))]
+  if ps_has [PEField k] T then [(k, remove_items s true (field_type t k) (ps_with_prefix (PEField k) T) (snd kv))]
   else if negb (ps_empty (ps_with_prefix (PEField k) T))
        then [(k, remove_items s true (field_type t k) (ps_with_prefix (PEField k) T) (snd kv))]
        else [].
@@ -111,7 +111,7 @@ Qed.
 
 (* what extraction makes of the value of field k *)
 Definition xt_value (s : schema) (T : pset) (t : mapT) (k : string) (c : value) : option value :=
-  if ps_has [PEField k] T then Some (remove_items s true (field_type t k) T c)
+  if ps_has [PEField k] T then Some (remove_items s true (field_type t k) (ps_with_prefix (PEField k) T) c)
   else if negb (ps_empty (ps_with_prefix (PEField k) T))
        then Some (remove_items s true (field_type t k) (ps_with_prefix (PEField k) T) c)
        else None.
